@@ -360,6 +360,28 @@ def next_power_2(value: int) -> int:
     return start
 
 
+def hash_bytes(value):
+    """
+    Return a hash string of a decoded metafile as bytes.
+
+    The bencode decoder hands a byte string that happens to be valid UTF-8
+    back as `str`; piece hashes and merkle roots must compare as bytes.
+
+    Parameters
+    ----------
+    value : bytes | str
+        value of a `pieces`, `pieces root` or `piece layers` entry
+
+    Returns
+    -------
+    bytes
+        the same string as bytes
+    """
+    if isinstance(value, str):
+        return value.encode("utf-8")
+    return value
+
+
 def copypath(source: str, dest: str) -> None:
     """
     Copy the file located at source to dest.
